@@ -32,7 +32,7 @@ CHECKS = {
                      "(gc-stress, gc-stress-minor, TLAB off, gc-verify, workers 1/2/8, heap/young sizes) on a debug-assertion runtime "
                      "(protected from-space) and a release runtime with the heap verifier. For allocation-heavy programs every allocation "
                      "k (and pairs k1<k2) becomes a collection point via DORA_VERIF_GC_AT; output and status must equal the undisturbed run. "
-                     "Corpus programs agree across the collector/flag matrix; garbage-only allocation of several heaps' worth must finish.",
+                     "Corpus programs agree across the collector/flag matrix; garbage-only allocation of several heaps' worth must finish. Arrays whose byte size is at, and one/two words around, every allocator/collector size threshold (read from the sources) are built, promoted, written with young references and verified under every collector.",
                 note="single-threaded programs only (multi-threaded allocation under OS scheduling cannot be enumerated: protocol-level C04/C12); "
                      "quick tier: 9 of 21 carrier/root combinations, n=3 only under copy/sweep, 4 of 12 injection programs; a corpus run "
                      "exceeding the time limit under a stress mode is listed as inconclusive"),
@@ -69,7 +69,7 @@ CHECKS = {
                      "immediates, label distances at the ends of every branch range). Each emitted word is compared bit-exactly with "
                      "llvm-mc 14's encoding of the requested instruction; non-encodable operands must be refused. mov_imm, "
                      "ldr_mem_*/str_mem_* and label branches are decoded by llvm-mc and evaluated. The 254 same-named methods of "
-                     "arm64.dora are compared with llvm-mc on a reduced product. quick 5.3e6 cases, thorough 6.6e7.",
+                     "arm64.dora are compared with llvm-mc on a reduced product. quick 5.3e6 cases, thorough 6.6e7. Operand tuples without encoding (refused by arm64.rs, not assemblable) nearest to the encodable range are offered to the Dora twin one per process and must be refused.",
                 note="a refusal (assert) of an operand the ISA could encode is counted, not a violation (the API may be narrower than the "
                      "ISA); beyond the quick products register numbers are covered only in combination with boundary immediates; the "
                      "Dora twin runs only tuples the Rust assembler accepts; driver built like a release build"),
@@ -80,7 +80,7 @@ CHECKS = {
                      "visibility, bounded queue, lock objects moved by a stop-the-world collection while threads are queued) "
                      "under all schedules (2 threads) / preemption bound 3 (quick) or 5 (thorough); the Dora side is interpreted "
                      "from the current pkgs/std/thread.dora, the runtime side is the real code. The address-keyed wait table is "
-                     "explored breadth-first (insert/remove/lookup-absent/epoch actions) against a BTreeMap.",
+                     "explored breadth-first (insert/remove/lookup-absent/epoch actions) against a BTreeMap. The wait-table search includes a moving-collection action (keys relocated in place through visit_roots).",
                 note="atomic intrinsics are modelled as SeqCst RMWs; real OS scheduling of compiled programs is out of scope"),
     "C10": dict(level="exploration", engine="progspace", design="5/C10",
                 technique="exhaustive static analysis of every function of every emitted assembly file in a declared corpus x code "
@@ -111,7 +111,7 @@ CHECKS = {
                 text="~3000 well-typed generator programs (expression shapes, statement lists, generic/trait/visibility programs, "
                      "family cases) must pass Sema + check_program + emit_program (bytecode verifier) and compile with both code "
                      "generators; every single-fault mutant (~3500 quick) of ten static-rule classes at every typed hole must be "
-                     "rejected with >= 1 diagnostic, through the API and through `dora compile -c` (no package emitted).",
+                     "rejected with >= 1 diagnostic, through the API and through `dora compile -c` (no package emitted). Two reference-decided families: impl matching (impl target patterns with repeated type parameters x use-site type arguments, unification) and definite return (statement lists over returning / possibly-returning statements).",
                 note="mutants are ill-typed by construction; positions where the replacement would stay well typed are not generated"),
     "C06": dict(level="exploration", engine="seqmc", design="5/C06",
                 technique="bounded-exhaustive enumeration of a lexeme text space and of all single-token edits of "
@@ -120,7 +120,7 @@ CHECKS = {
                      "delimiter alphabet in the thorough tier) in 12 syntactic contexts, every repository source file and "
                      "every single-token edit of it go through the real parser; the shorter texts and all repository files "
                      "also through the real semantic analysis; oracle: no panic, no hang, diagnostic spans inside the file, "
-                     "status == !has_errors, CLI exits 1 with messages. Exhaustive inside the bounds, nothing beyond.",
+                     "status == !has_errors, CLI exits 1 with messages. Exhaustive inside the bounds, nothing beyond. Every pair of mutually referring alias/struct (thorough: enum, class, trait-alias) declarations over all type expressions of depth <= 1 goes through `dora compile -c`, one process each.",
                 note="trusted: the harness' catch_unwind/watchdog; texts beyond the bounds are only represented by repository "
                      "files and their edits"),
     "C01": dict(level="exploration", engine="progspace", design="5/C01",
@@ -142,7 +142,7 @@ CHECKS = {
                      "String literal scrutinees: every matrix of up to 2-4 rows x guard placements is checked by the real front end; "
                      "NON_EXHAUSTIVE_MATCH and every USELESS_PATTERN (line and column, down to the alternative) must equal brute force "
                      "over all values; every accepted matrix of the small types is compiled with both generators and called with every "
-                     "value x every guard mask: the arm taken and the values bound must equal the first matching row.",
+                     "value x every guard mask: the arm taken and the values bound must equal the first matching row. Dense literal spaces (all 4-row matrices over three literals and a wildcard) are executed with boundary scrutinee values (literal +- 2^32, sign bit, min, max).",
                 note="row and depth bounds per space are listed in the evidence; literal domains are the three literals plus one other value"),
     "C13": dict(level="exploration", engine="progspace", design="5/C13",
                 technique="enumeration of frame shape x recursion kind x thread and of allocation entry x element type x hostile length, "
@@ -158,7 +158,7 @@ CHECKS = {
                 text="13 trap kinds x 7 callee shapes (plain, generic, method, static, lambda, trait-object thunk, inlinable leaf) x "
                      "chain depth 1-2 (3 thorough): message, exit status, every frame's function name and source line, and the stdout "
                      "written before the trap must equal what the generator recorded, for both code generators (and both must print "
-                     "identical reports incl. columns).",
+                     "identical reports incl. columns). Two further kinds trap inside a reference-producing element access whose set-up sits on the previous source line.",
                 note="stack overflow / out-of-memory reports are covered by C13; columns only compared between generators"),
     "C15": dict(level="exploration", engine="progspace", design="5/C15",
                 technique="enumeration of the owned nondeterminism space -- hash seeds (getrandom interposition) x working directory x output "
@@ -170,14 +170,14 @@ CHECKS = {
                      "seeds of every Rust process in the pipeline are set through an LD_PRELOAD getrandom shim that is verified effective) x "
                      "environment variant (cwd /, short, deep; 60 neighbour files; ASLR off), 14 builds at a time: all members of a group "
                      "must be byte-identical. The optimizing compiler is bootstrapped per seed with first stages linked against two "
-                     "collectors: stage2 == stage3 as executable and assembly, and stage2's assembly is the same across chains.",
+                     "collectors: stage2 == stage3 as executable and assembly, and stage2's assembly is the same across chains. Files sharing the output's stem must survive a build untouched, and builds for four collectors started at the same moment into one directory with one stem must equal the builds made alone.",
                 note="seeds enumerate hash functions, not all iteration orders; release and debug-assertion tool chains are different "
                      "compiler configurations (is_debug changes emitted self-checks) and are compared only with themselves; gcc/ld trusted"),
     "C16": dict(level="exploration", engine="seqmc", design="5/C16",
                 technique="bounded-exhaustive enumeration of texts x separator styles, oracle evaluated on the real parser's tree",
                 text="The same text space as C06 with all line-ending/separator styles and multi-byte lexemes, plus all "
                      "repository files and their token edits: byte round trip, node length sums, gap-free tiling of token "
-                     "spans, error spans inside the text, equal tree on re-parse -- checked on every text.",
+                     "spans, error spans inside the text, equal tree on re-parse -- checked on every text. A node's span must run from its first to its last code token on character boundaries; comments with multi-byte characters are part of the alphabet; every separator style incl. lone CR at the shorter bound.",
                 note="exhaustive only up to the stated length bounds"),
     "C17": dict(level="exploration", engine="seqmc", design="5/C17",
                 technique="exhaustive enumeration of layout mutants (comment/line break at every token boundary) and of the "
@@ -203,7 +203,7 @@ CHECKS = {
                      "re-encodes identically, dumps identically, equals the in-process program, trailing bytes refused; source->exe and "
                      "source->package->exe give identical assembly and executables. Damage: every truncation length and bit flips in "
                      "declared windows/strides -> decoder (child processes under an address-space limit) and the real generators on "
-                     "every outcome class: refused with a message or a valid encoding of another program, never a crash.",
+                     "every outcome class: refused with a message or a valid encoding of another program, never a crash. A program printing constants of every kind and bit-pattern class is built from source and from its package by both generators and must print what was written (covers the Dora-side deserializer).",
                 note="a damaged package that still decodes to an inconsistent program can panic the generators (known finding: nothing "
                      "validates a decoded program; a checksum would be a format change); non-minimal integer encodings accepted by bincode "
                      "are classed ok-noncanonical; operands above 2^32-1 out of scope; the Dora-side builder/deserializer are not driven"),
@@ -212,7 +212,7 @@ CHECKS = {
                 text="All names up to length 4 (5 thorough) over a 16-symbol alphabet are mangled by the real function; "
                      "injectivity, charset, demangle round trip and purity hold in every state; the length cap is swept "
                      "parametrically (34..40) and at the production value with long common prefixes; emitted .s files have "
-                     "pairwise distinct, valid global labels.",
+                     "pairwise distinct, valid global labels. Over-long names differing in exactly one character at every position must get different shortened symbols; a program of callables that differ in exactly one name component each is compiled, linked and run on both back ends.",
                 note="names longer than the bound differ only by more symbols of the same classes (mangling is byte-wise)"),
 }
 
